@@ -66,7 +66,7 @@ class FakeTty(io.StringIO):
 class Rec:
     """One PromptSession on one pipe input, with recording hooks."""
 
-    def __init__(self, rcpr, inp):
+    def __init__(self, rcpr, inp, extra=False):
         from prompt_toolkit import PromptSession
         from prompt_toolkit.data_structures import Size
         from prompt_toolkit.keys import Keys
@@ -79,6 +79,8 @@ class Rec:
         self.kid = {k: i for i, k in enumerate(list(Keys))}
         self._Flush = kpm._Flush
         self.rcpr = rcpr
+        self.extra = extra
+        self.extra_kb = gen_t_c17.extra_key_bindings if extra else None
         self.inp = inp
         self.out = Vt100_Output(FakeTty(), lambda: Size(rows=24, columns=80), term="xterm", enable_cpr=True) if rcpr else DummyOutput()
         self.labels = []
@@ -88,7 +90,6 @@ class Rec:
         self.handled = []         # every key press that reached a handler, in order (oracle)
         self.late_calls = []      # (effect, keys) of handler calls made after the result was set (oracle)
         self.decoded = []         # every key press the input produced (oracle)
-        self.cpr_bad = False
         self.pending = None
         self.started = True
         self.in_prompt = False
@@ -113,7 +114,7 @@ class Rec:
 
     def setup(self):
         from prompt_toolkit import PromptSession
-        s = PromptSession()
+        s = PromptSession(key_bindings=self.extra_kb()) if self.extra else PromptSession()
         self.session = s
         app = s.app
         self.app = app
@@ -179,35 +180,25 @@ class Rec:
             rec.handled.extend(ks)
             if late:
                 rec.late_calls.append((eff, ks))
-            rec._calls_in_send.append((eff, ks))
             return orig_call(handler, key_sequence)
         kp._call_handler = call_handler
-        self._calls_in_send = []
 
-        orig_reset = kp.reset
+        orig_cpr = getattr(kp, "_handle_cpr_response", None)
 
-        class Proxy:
-            def __init__(self, gen):
-                self.gen = gen
-
-            def send(self, key_press):
-                if key_press is None or not rec.is_cpr(key_press):
-                    return self.gen.send(key_press)
-                empty = not kp.key_buffer
-                rec._calls_in_send = []
-                try:
-                    return self.gen.send(key_press)
-                finally:
-                    calls = rec._calls_in_send
-                    alone = empty and len(calls) == 1 and calls[0][0] == 19 and calls[0][1] == [key_press] and not kp.key_buffer
-                    if not alone:
-                        rec.cpr_bad = True
-
-        def reset():
-            orig_reset()
-            kp._process_coroutine = Proxy(kp._process_coroutine)
-        kp.reset = reset
-        kp._process_coroutine = Proxy(kp._process_coroutine)
+        def handle_cpr_response(key_press):
+            # the binding the report is delivered to (same search as the method itself)
+            for binding in reversed(kp._bindings.get_bindings_for_keys((rec.Keys.CPRResponse,))):
+                if binding.keys == (rec.Keys.CPRResponse,) and binding.filter():
+                    late = 1 if app.is_done else 0
+                    eff = rec.effect_of(binding.handler)
+                    rec.events.append([1, late, eff, [rec.kp(key_press)]])
+                    rec.handled.append(key_press)
+                    if late:
+                        rec.late_calls.append((eff, [key_press]))
+                    break
+            return orig_cpr(key_press)
+        if orig_cpr is not None:      # absent: reports go through _call_handler, which is hooked above
+            kp._handle_cpr_response = handle_cpr_response
 
         orig_req = app._request_absolute_cursor_position
 
@@ -263,7 +254,7 @@ class Rec:
             [list(r) for r in self.results],
             S(prefix),
             self.events,
-            [0, 1 if self.cpr_bad else 0, 0]])
+            [0, 0]])
         self.events = []
 
     # -- operations
@@ -307,6 +298,8 @@ class Rec:
             raise
         except KeyboardInterrupt:
             r = [2]
+        except Exception as e:  # noqa - the prompt raised something else: a result of its own kind
+            r = [3, S(type(e).__name__ + ": " + str(e)[:60])]
         self.after_prompt(r)
 
     async def finish_prompt_async(self):
@@ -318,6 +311,10 @@ class Rec:
             raise
         except KeyboardInterrupt:
             r = [2]
+        except asyncio.CancelledError:
+            raise
+        except Exception as e:  # noqa
+            r = [3, S(type(e).__name__ + ": " + str(e)[:60])]
         self.after_prompt(r)
 
 
@@ -399,7 +396,7 @@ def run_scenario(sc):
 
     def body():
         with create_pipe_input() as inp:
-            rec = Rec(rcpr, inp)
+            rec = Rec(rcpr, inp, bool(sc.get("extra")))
             with create_app_session(input=inp, output=rec.out):
                 hang = None
                 if mode == "async":
@@ -596,6 +593,8 @@ def classify_results(sc, results):
 
 
 def show_res(r):
+    if r[0] == 3:
+        return "raised " + unS(r[1])
     return repr(unS(r[1])) if r[0] == 0 else ("EOFError" if r[0] == 1 else "KeyboardInterrupt")
 
 
@@ -825,6 +824,25 @@ def gen_scenarios(chk):
         ops = [["start"], ["w", bytes_of(l1 + l2a) + kb[:1], 1], ["settle"], ["start"], ["w", kb[1:] + bytes_of(l2b)], ["close"]] + [["start"], ["wait"]] * 3
         toks = l1 + l2a + [key] + l2b
         add("timeout-while-exiting", {"rcpr": 1, "mode": "async", "ops": ops, "tokens": [list(t) for t in toks], "maxp": 3})
+    # a binding that ends the prompt firing from the retry scan with keys left in the buffer: the session
+    # gets the user binding ('c-c', 'c-c'), so c-c waits; the key after it makes the scan fire c-c
+    # (KeyboardInterrupt) and must then go back to the queue for the next prompt
+    nxs = 80 if thorough else 10
+    for _ in range(nxs):
+        toks = []
+        for _ in range(rng.randint(1, 3)):
+            toks += [("c", rng.choice("abX ")) for _ in range(rng.randint(0, 3))] + [("ctrl-c", 0)]
+            toks += [rng.choice([("enter", 0), ("c", "q"), ("left", 0), ("bword", 0), ("esc-enter", 0), ("f1", 0), ("c", "x")])]
+            toks += [("c", rng.choice("yz")) for _ in range(rng.randint(0, 2))] + [("enter", 0)]
+        toks += [("c", "z"), ("enter", 0)]
+        n = len(expected_results(toks))
+        data = bytes_of(toks)
+        if rng.random() < 0.3:
+            sc = mk_sync(toks, data, n)
+        else:
+            sc = mk_async(rng, toks, data, rng.randint(0, 1), rng.choice([1, 2, 5, 40]), n)
+        sc["extra"] = 1
+        add("exit-from-retry-scan", sc)
     # reports cut into a key's own byte sequence: not something a terminal does; reported separately
     nmid = 200 if thorough else 20
     for _ in range(nmid):
@@ -843,8 +861,8 @@ def gen_scenarios(chk):
 
 # --------------------------------------------------------------------------
 
-def case_of(sc, o):
-    return [sc["rcpr"], o["labels"]]
+def flags_of(sc):
+    return sc["rcpr"] + (2 if sc.get("extra") else 0)
 
 
 def run_one(chk, sc, oracle_bad, idx):
@@ -879,7 +897,7 @@ def run_one(chk, sc, oracle_bad, idx):
 
 def describe_sc(sc):
     return {"rcpr": sc["rcpr"], "mode": sc["mode"], "ops": sc["ops"], "tokens": sc.get("tokens"), "maxp": sc.get("maxp"),
-            "cpr_class": sc.get("cpr_class"), "quoted_split": sc.get("quoted_split"), "kind": sc.get("kind"),
+            "cpr_class": sc.get("cpr_class"), "quoted_split": sc.get("quoted_split"), "kind": sc.get("kind"), "extra": sc.get("extra"),
             "how": "harness/c17.py run_scenario: PromptSession on create_pipe_input(); ops: w=send_text, start=prompt_async()/prompt(), wait=await it, close=close the write end"}
 
 
@@ -927,7 +945,7 @@ def main(tier):
             labels = [[L_WRITE, S(all_bytes(sc))], [L_CLOSE]]
             for r in o["results"]:
                 labels += [[L_START], [L_READ, 1024], [L_EXIT]]
-            cases.append([0, labels, 1])
+            cases.append([flags_of(sc), labels, 1])
             impl_results.append([o["results"]])
         else:
             # a misapplied key (known findings) can reach a handler outside the 19 modelled
@@ -937,10 +955,10 @@ def main(tier):
             if cutj is not None:
                 labels, snaps = labels[:cutj], snaps[:cutj]
                 truncated += 1
-            cases.append([sc["rcpr"], labels])
+            cases.append([flags_of(sc), labels])
             impl_results.append(snaps)
         kept.append(sc)
-        chk.count_case(json.dumps([sc["rcpr"], sc["mode"], sc["ops"]]), len(o["results"]) >= 2 and any(r[0] == 0 for r in o["results"]))
+        chk.count_case(json.dumps([flags_of(sc), sc["mode"], sc["ops"]]), len(o["results"]) >= 2 and any(r[0] == 0 for r in o["results"]))
         if idx % 97 == 0:
             chk.sample({"kind": sc.get("kind"), "bytes": all_bytes(sc)[:80], "mode": sc["mode"], "rcpr": sc["rcpr"],
                         "results": [show_res(r) for r in o["results"]], "labels": len(o["labels"])})
@@ -980,7 +998,7 @@ def main(tier):
     chk.coverage["traces_validated_against_impl"] += len(cases) - nbad
 
     # malformed cases -> bad_case
-    malformed = [[2, []], [0, [[1, 0]]], [0, [[0, [[1]]]]], [0, [[11]]], 5]
+    malformed = [[4, []], [[], []], [0, [[1, 0]]], [0, [[0, [[1]]]]], [0, [[11]]], 5]
     for c, m in zip(malformed, run_model("c17", malformed)):
         if m != [-999]:
             chk.violation("tie", "malformed case %r gives %r" % (c, m), {"kind": "malformed"}, {"case": c}, no_input=True)
@@ -1072,6 +1090,6 @@ def replay(data):
         if cutj is not None:
             print("a handler outside the modelled classes is reached at label %d; the model is compared up to there" % cutj)
             labels, snaps = labels[:cutj], snaps[:cutj]
-        m = run_model("c17", [[sc["rcpr"], labels]])[0]
+        m = run_model("c17", [[flags_of(sc), labels]])[0]
         print("model agrees on all %d snapshots" % len(snaps) if m == sx_norm(snaps) else "model differs")
     return rc
